@@ -6,6 +6,7 @@ INVARIANT Blocks
 INVARIANT RoundTrip
 INVARIANT Gate
 INVARIANT Kept
+INVARIANT ThumbKept
 INVARIANT LazyUnobservable
 INVARIANT Untouched
 VIEW View
@@ -24,3 +25,4 @@ CONSTANTS
   Fills = {"l0", "all"}
   History = FALSE
   MaxOps = 0
+  Thumbs = {"t16"}
